@@ -30,6 +30,7 @@ ASSUMPTIONS = [
 CASES = {'quick': 16000, 'thorough': 200000}
 TIME = {'quick': 70, 'thorough': 540}
 MIN_NONTRIVIAL = {'quick': 800, 'thorough': 6000}
+NO_ASSERT_SHARDS = True     # odd shards: pokerkit's asserts compiled out
 REQUIRED = ('replenishments', 'explicit_cards_dealt', 'unknown_cards_dealt',
             'states_checked', 'muck_moves', 'discard_moves')
 
